@@ -41,6 +41,8 @@ pub enum Finish {
     Panic,
     /// into_writer, write nothing, drop the writer (no message at all for this request)
     WriterNothing,
+    /// into_writer, write nothing, then panic while holding the writer (dropped by unwinding)
+    WriterPanic,
     /// respond with a body whose reader fails after `fail_after` bytes: io::Error(Other), or a
     /// (marker) panic inside the reader. The application's own fault; what matters is that the
     /// library does not add a second response for the request.
@@ -93,6 +95,7 @@ impl ReqPlan {
             Finish::Upgrade { .. } => "upgrade",
             Finish::Panic => "panic",
             Finish::WriterNothing => "writer-nothing",
+            Finish::WriterPanic => "writer-panic",
             Finish::RespondBrokenBody { .. } => "respond-broken-body",
         }
     }
@@ -521,6 +524,18 @@ pub fn execute_plan(mut rq: Request, plan: &ReqPlan, rec: &Arc<Mutex<Delivered>>
             }
             let _guard = crate::alloc::LibCall::enter();
             let _hold = rq;
+            panic!("{}", PANIC_MARKER);
+        }
+        Finish::WriterPanic => {
+            let w = lib(|| rq.into_writer());
+            {
+                let mut r = rec.lock().unwrap();
+                r.finish = label.clone();
+                r.done = true;
+                r.t_done_ns = now_ns();
+            }
+            let _guard = crate::alloc::LibCall::enter();
+            let _hold = w;
             panic!("{}", PANIC_MARKER);
         }
     }
